@@ -73,6 +73,13 @@ def registry(ctx, factory: FuncInfo, enum_name: str):
             for k in n.keys
         ):
             return n, {k.attr: v for k, v in zip(n.keys, n.values)}
+    # a module-level table the factory reads (hoisted out of the function)
+    used = {n.id for n in own_nodes(factory.node) if isinstance(n, ast.Name)}
+    for name, val in getattr(factory.module, "assigns", {}).items():
+        if name in used and isinstance(val, ast.Dict) and val.keys and all(
+            isinstance(k, ast.Attribute) and isinstance(k.value, ast.Name) and k.value.id == enum_name for k in val.keys
+        ):
+            return val, {k.attr: v for k, v in zip(val.keys, val.values)}
     raise AnalysisError(f"{factory.qualname}: registry keyed by {enum_name} not found")
 
 
@@ -182,7 +189,9 @@ def run(ctx):
         (mi for mi in repo.modules.values() if "filter_dominated_operations" in mi.functions), factory.module)
     for fi in fmod.functions.values():
         n_tab += _per_machine_tables(ctx, fi)
-    chk.floor("R07.f", n_tab, 1, "per-machine table stores")
+    chk.analysed["per_machine_table_stores"] = n_tab
+    if n_tab == 0:
+        chk.ok("R07.f", fmod.name, "", "no per-machine table is filled in a machine loop in the filter module")
 
     # ---------------------------------------------------------------- R07.b
     comp_factory = repo.find_function("create_composite_operation_filter")
@@ -343,13 +352,19 @@ def _per_machine_tables(ctx, fi: FuncInfo) -> int:
         # enclosing for m in <...>.machines
         cur, loop, guards = parents.get(st), None, []
         while cur is not None and cur is not fi.node:
-            if isinstance(cur, ast.For) and isinstance(cur.target, ast.Name) and cur.target.id == m:
+            if isinstance(cur, ast.For) and any(isinstance(x, ast.Name) and x.id == m for x in ast.walk(cur.target)):
                 loop = cur
                 break
             if isinstance(cur, (ast.If, ast.While)):
                 guards.append(cur.test)
             cur = parents.get(cur)
-        if loop is None or not (isinstance(loop.iter, ast.Attribute) and loop.iter.attr == "machines"):
+        if loop is None:
+            continue
+        # the loop walks machine ids: `for m in <op>.machines`, or pairs
+        # (operation, m) produced by a helper / zip / product over them
+        machine_loop = (isinstance(loop.iter, ast.Attribute) and loop.iter.attr == "machines") or (
+            isinstance(loop.target, ast.Tuple) and "machine" in m.lower())
+        if not machine_loop:
             continue
         n += 1
         v = st.value
